@@ -395,6 +395,8 @@ func rawArg(tok string) any {
 		return rawLV{slog.GroupValue()}
 	case "e":
 		return errors.New("err")
+	case "C": // a value that renders differently with colour on
+		return slog.Any("c", logger.AnsiString{Prefix: "\x1b[34m", Value: "blue"})
 	}
 	return strings.TrimPrefix(tok, "s:")
 }
@@ -562,7 +564,18 @@ func (mn mon) Run(sh drv.Shard, c *drv.Ctx) {
 						ops4 = append(ops4, TOp{Op: "group", Node: p, Group: escNames[(pad+k)%len(escNames)]},
 							TOp{Op: "with", Node: p + 1, Attrs: childAttr(0)}, TOp{Op: "with", Node: p + 1, Attrs: childAttr(4)}, TOp{Op: "group", Node: p + 1, Group: escNames[(pad+k+1)%len(escNames)]},
 							TOp{Op: "log", Node: p + 2, Level: 1, Msg: "m"}, TOp{Op: "log", Node: p + 3, Level: 1, Msg: "m"}, TOp{Op: "log", Node: p + 4, Level: 1, Msg: "m"}, TOp{Op: "log", Node: p + 1, Level: 1, Msg: "m"})
-						for _, o := range [][]TOp{ops, ops2, ops3, ops4} {
+						all := [][]TOp{ops, ops2, ops3, ops4}
+						if pad%25 == 0 {
+							// order 5: one sibling writes a line far beyond the pooled-buffer limit (16 KiB); what the
+							// other siblings and the parent write afterwards is still only their own
+							big := []attrgen.Node{leaf("big", sval(strings.Repeat("B", 17000+pad*100)))}
+							ops5 := append([]TOp(nil), base...)
+							ops5 = append(ops5, TOp{Op: "with", Node: p, Attrs: childAttr(0)}, TOp{Op: "with", Node: p, Attrs: childAttr(1)}, TOp{Op: "group", Node: p, Group: "g5"},
+								TOp{Op: "log", Node: p + 1, Level: 1, Msg: "m", Attrs: big}, TOp{Op: "log", Node: p + 2, Level: 1, Msg: "m"}, TOp{Op: "log", Node: p + 3, Level: 2, Msg: "n"},
+								TOp{Op: "log", Node: p, Level: 1, Msg: "m", Attrs: big}, TOp{Op: "log", Node: p + 1, Level: 1, Msg: "m"}, TOp{Op: "log", Node: p, Level: 1, Msg: "m"})
+							all = append(all, ops5)
+						}
+						for _, o := range all {
 							cs := Case{Kind: kind, Ops: o, AddSource: idx%9 == 0}
 							if c.NumSamples() < 1 && pad == 40 {
 								c.Sample(map[string]any{"handler": kind, "history": opsKey(o)})
@@ -674,7 +687,7 @@ func (mn mon) Run(sh drv.Shard, c *drv.Ctx) {
 			}
 			for _, kind := range logrun.Kinds {
 				for _, g := range []string{"G", ""} {
-					cs := Case{Kind: kind, Equiv: &EquivCase{A: r.Chain[0].Attrs, B: r.Chain[1].Attrs, C: r.Attrs, G: g, Msg: "m"}}
+					cs := Case{Kind: kind, AddSource: idx%4 == 0, Equiv: &EquivCase{A: r.Chain[0].Attrs, B: r.Chain[1].Attrs, C: r.Attrs, G: g, Msg: "m"}}
 					if !exec(cs, "equiv"+kind+g+attrgen.ShapeKey(r)) {
 						return false
 					}
@@ -684,7 +697,7 @@ func (mn mon) Run(sh drv.Shard, c *drv.Ctx) {
 		})
 		// raw argument lists: every list of <= 4 (thorough: 5) tokens
 		{
-			toks := []string{"s:k", "s:x", "i", "f", "n", "A", "G", "E", "N", "I", "L", "V", "e"}
+			toks := []string{"s:k", "s:x", "s:", "i", "f", "n", "A", "G", "E", "N", "I", "L", "V", "e", "C"}
 			var cur []string
 			n := 0
 			var walk func(d int) bool
@@ -693,7 +706,7 @@ func (mn mon) Run(sh drv.Shard, c *drv.Ctx) {
 					n++
 					if n%a.Parts == a.Part {
 						for _, kind := range logrun.Kinds {
-							if !exec(Case{Kind: kind, Raw: append([]string(nil), cur...)}, "raw"+kind+strings.Join(cur, ",")) {
+							if !exec(Case{Kind: kind, AddSource: n%5 == 0, Raw: append([]string(nil), cur...)}, "raw"+kind+strings.Join(cur, ",")) {
 								return false
 							}
 						}
@@ -721,7 +734,7 @@ func (mn mon) Run(sh drv.Shard, c *drv.Ctx) {
 			if len(x.Attrs) == 0 || len(y.Attrs) == 0 {
 				continue
 			}
-			cs := Case{Kind: logrun.Kinds[rr.Intn(3)], Equiv: &EquivCase{A: x.Attrs, B: y.Attrs, C: z.Attrs, G: []string{"grp", ""}[rr.Intn(2)], Msg: string(z.Msg)}}
+			cs := Case{Kind: logrun.Kinds[rr.Intn(3)], AddSource: rr.Intn(3) == 0, Equiv: &EquivCase{A: x.Attrs, B: y.Attrs, C: z.Attrs, G: []string{"grp", ""}[rr.Intn(2)], Msg: string(z.Msg)}}
 			if !exec(cs, "") {
 				goto done
 			}
